@@ -154,8 +154,9 @@ fn check_stream_tetraplets(cx: &Cx, peer: usize, rq: ReqId, this: &mut C17) -> V
     // find the call site to know the argument forms
     let mut site: Option<&I> = None;
     for c in script::calls(&cx.world.script.ast) {
-        if let I::Call { func, .. } = c {
-            if *func == r.function {
+        if let I::Call { func, args, .. } = c {
+            // (two sites may share a function name, e.g. the first and the recursive call of a route script)
+            if *func == r.function && args.len() == r.args.len() {
                 site = Some(c);
             }
         }
